@@ -14,8 +14,8 @@ func init() { runners["C10"] = runC10 }
 type c10Case struct {
 	Client bool   `json:"client"`
 	Flate  bool   `json:"flate"`
-	Op     string `json:"op"`    // write | writer | read | read-fragmented | ping
-	When   string `json:"when"`  // after-success | during-blocked | before
+	Op     string `json:"op"`   // write | writer | read | read-fragmented | ping
+	When   string `json:"when"` // after-success | during-blocked | before
 	Delay  int    `json:"delay_us"`
 	Size   int    `json:"size"`
 }
